@@ -125,6 +125,8 @@ class Cookie:
                 raise ValueError(
                     "Cookie domain and path must not contain ';' or control characters."
                 )
+        if samesite not in ("strict", "lax", "none"):
+            raise ValueError("Cookie samesite must be 'strict', 'lax' or 'none'.")
         self.name = name
         self.value = value
         self.expires = expires
